@@ -95,19 +95,37 @@ pub struct ScenarioC7 {
     /// every answer still owed is dropped): the client must report "exchange offline" for those
     #[serde(default)]
     pub exchange_gone_at: Option<u64>,
+    /// one more instrument: a perpetual margined in an asset that is neither its base nor its quote
+    /// (and nobody else's); the exchange rejects opens for it naming that asset
+    #[serde(default)]
+    pub margin_perp: bool,
 }
 
 pub struct SimC7;
 
-fn c7_instruments(n: usize) -> IndexedInstruments {
+impl ScenarioC7 {
+    fn with_requests_for_the_margin_perp(mut self, rng: &mut Rng) -> Self {
+        if self.margin_perp {
+            let n = self.n_inst.clamp(1, 3);
+            for r in self.reqs.iter_mut() {
+                if rng.chance(1, 3) {
+                    r.inst = n;
+                }
+            }
+        }
+        self
+    }
+}
+
+const MARGIN_PERP: (&str, &str, &str) = ("eth", "usd", "xbt");
+
+fn c7_instruments(n: usize, margin_perp: bool) -> IndexedInstruments {
     let pairs = [("btc", "usdt"), ("eth", "usdt"), ("sol", "usdt")];
-    IndexedInstruments::new(
-        pairs
-            .iter()
-            .take(n.clamp(1, 3))
-            .map(|(b, q)| spot(EXS[0], b, q))
-            .collect::<Vec<_>>(),
-    )
+    let mut v = pairs.iter().take(n.clamp(1, 3)).map(|(b, q)| spot(EXS[0], b, q)).collect::<Vec<_>>();
+    if margin_perp {
+        v.push(crate::world::perp_settled(EXS[0], MARGIN_PERP.0, MARGIN_PERP.1, MARGIN_PERP.2));
+    }
+    IndexedInstruments::new(v)
 }
 
 #[derive(Debug, Clone)]
@@ -182,9 +200,10 @@ impl Sim for SimC7 {
                 },
             });
         }
+        let tokio_seed = rng.next_u64();
         ScenarioC7 {
             timeout_ms,
-            tokio_seed: rng.next_u64(),
+            tokio_seed,
             n_inst,
             reqs,
             close_rx_at: if sub == 1 && rng.chance(1, 12) {
@@ -200,7 +219,9 @@ impl Sim for SimC7 {
             },
             mock_client: rng.chance(1, 4),
             exchange_gone_at: if sub == 1 && rng.chance(1, 3) { Some(rng.below(t + timeout_ms + 2)) } else { None },
+            margin_perp: rng.chance(1, 4),
         }
+        .with_requests_for_the_margin_perp(rng)
     }
 
     fn execute(&self, sc: &ScenarioC7, ctx: &ExecCtx<'_>) -> Outcome {
@@ -208,7 +229,10 @@ impl Sim for SimC7 {
         let mut log = Log::new(ctx.keep_log);
         let mut stats = RunStats::default();
         let mut violation: Option<Violation> = None;
-        let instruments = c7_instruments(sc.n_inst);
+        let instruments = c7_instruments(sc.n_inst, sc.margin_perp);
+        let _margin = crate::sim_client::set_margin_reject(
+            sc.margin_perp.then(|| (format!("{}_{}_perp", MARGIN_PERP.0, MARGIN_PERP.1), MARGIN_PERP.2.to_string())),
+        );
         let n_inst = instruments.instruments().len();
         let reqs0: Vec<&ReqC7> = sc.reqs.iter().filter(|r| r.inst < n_inst).collect();
         // effective requests: a twin shares the client order id (and therefore the scripted client
@@ -790,6 +814,10 @@ pub enum OpC4 {
     /// the exchange reports a balance for an asset the engine does not track, whose name is a tracked
     /// asset's name plus a wallet suffix ("btc.f", "usdt.hold"): nothing may change
     UntrackedWalletBalance { asset: usize, suffix: u8, total: i64 },
+    /// the exchange of instrument `inst` reports (order report, or fill when `fill`) about an
+    /// instrument the engine does not track on that exchange (manual trading, another bot): nothing
+    /// of that exchange may change
+    UntrackedInstrumentEvent { inst: usize, fill: bool },
 }
 
 #[derive(Clone, Debug, Serialize, Deserialize)]
@@ -929,6 +957,8 @@ impl Sim for SimC4 {
                 3 => {
                     if rng.chance(1, 4) {
                         OpC4::UntrackedWalletBalance { asset: rng.usize(n_assets), suffix: rng.below(3) as u8, total: rng.range(1, 10_000) }
+                    } else if rng.chance(1, 3) {
+                        OpC4::UntrackedInstrumentEvent { inst: rng.usize(n_inst), fill: rng.chance(1, 2) }
                     } else {
                         OpC4::Balance { asset: rng.usize(n_assets), total: rng.range(1, 10_000) }
                     }
@@ -1215,6 +1245,7 @@ impl Sim for SimC4 {
                     | OpC4::Cancel { inst }
                     | OpC4::OrderReport { inst }
                     | OpC4::ForeignOrderReport { inst }
+                    | OpC4::UntrackedInstrumentEvent { inst, .. }
                     | OpC4::Trade { inst, .. } => *inst < n_inst,
                     OpC4::Balance { asset, .. } | OpC4::UntrackedWalletBalance { asset, .. } => *asset < n_assets,
                     OpC4::OpenPair { a, b } => {
@@ -1237,6 +1268,7 @@ impl Sim for SimC4 {
                     OpC4::Trade { inst, .. } => format!("t{inst}"),
                     OpC4::OpenPair { a, .. } => format!("p{}", instruments.instruments()[*a].value.exchange.key.0),
                     OpC4::UntrackedWalletBalance { asset, .. } => format!("ub{asset}"),
+                    OpC4::UntrackedInstrumentEvent { inst, fill } => format!("ui{inst}{fill}"),
                 });
                 let recv_before: Vec<usize> = clients.iter().map(|c| c.0.received.lock().unwrap().len()).collect();
                 let before = engine.state.clone();
@@ -1476,6 +1508,66 @@ impl Sim for SimC4 {
                             }
                         }
                     }
+                    OpC4::UntrackedInstrumentEvent { inst, fill } => {
+                        let ii = &instruments.instruments()[*inst];
+                        let x = ii.value.exchange.key.0;
+                        if !traded[x] {
+                            continue;
+                        }
+                        // a name this exchange's link does not know: another exchange's instrument it
+                        // does not list itself, else a made-up one
+                        let name = instruments
+                            .instruments()
+                            .iter()
+                            .map(|j| j.value.name_exchange.clone())
+                            .find(|n| !instruments.instruments().iter().any(|j| j.value.exchange.key.0 == x && j.value.name_exchange == *n))
+                            .unwrap_or_else(|| barter_instrument::instrument::name::InstrumentNameExchange::from("doge_shib"));
+                        let kind = if *fill {
+                            AccountEventKind::Trade(barter_execution::trade::Trade {
+                                id: barter_execution::trade::TradeId::new(format!("ut-{k}")),
+                                order_id: OrderId::new(format!("ux-{k}")),
+                                instrument: name.clone(),
+                                strategy: strategy_id(),
+                                time_exchange: ts(t_ms),
+                                side: Side::Buy,
+                                price: dec(100),
+                                quantity: dec(1),
+                                fees: barter_execution::trade::AssetFees::quote_fees(dec(0)),
+                            })
+                        } else {
+                            AccountEventKind::OrderSnapshot(Snapshot(Order {
+                                key: OrderKey {
+                                    exchange: ii.value.exchange.value,
+                                    instrument: name.clone(),
+                                    strategy: strategy_id(),
+                                    cid: ClientOrderId::new(format!("manual-{k}")),
+                                },
+                                side: Side::Buy,
+                                price: dec(100),
+                                quantity: dec(1),
+                                kind: OrderKind::Limit,
+                                time_in_force: TimeInForce::GoodUntilCancelled { post_only: false },
+                                state: OrderState::active(Open {
+                                    id: OrderId::new(format!("ux-{k}")),
+                                    time_exchange: ts(t_ms),
+                                    filled_quantity: dec(0),
+                                }),
+                            }))
+                        };
+                        let _ = acct_txs[x].send(UnindexedAccountEvent { exchange: ii.value.exchange.value, kind });
+                        tokio::time::sleep(Duration::from_millis(1)).await;
+                        while let Ok(ev) = merged_rx.rx.try_recv() {
+                            let _ = engine.process(EngineEvent::<DataKind>::Account(ev));
+                        }
+                        probes.push("event_naming_untracked_instrument");
+                        for j in 0..n_inst {
+                            let b = before.instruments.instrument_index(&InstrumentIndex(j));
+                            let af = engine.state.instruments.instrument_index(&InstrumentIndex(j));
+                            if b != af {
+                                return (Some(("X7_event_applied_to_wrong_item".to_string(), k, format!("exchange {x} reported about instrument {name}, which the engine does not track there, and instrument index {j} changed"))), lines, sigs, probes, 0);
+                            }
+                        }
+                    }
                     OpC4::OrderReport { inst } | OpC4::Trade { inst, .. } => {
                         let ii = &instruments.instruments()[*inst];
                         let e = ii.value.exchange.key.0;
@@ -1649,6 +1741,7 @@ impl Sim for SimC4 {
             "request_for_untraded_exchange",
             "balance_for_settlement_only_asset",
             "report_naming_foreign_exchange",
+            "event_naming_untracked_instrument",
         ]
     }
     fn assumptions(&self) -> Vec<String> {
